@@ -49,6 +49,9 @@ const (
 	KRAdd    = "radd"    // Watcher.Add(P + "/...") (recursive mode)
 	KRRemove = "rremove" // Watcher.Remove(P + "/...")
 
+	KRRemoveNow = "rremove!" // ... inside a burst, without waiting for quiescence
+	KRAddNow    = "radd!"    // Watcher.Add(P + "/...") while events may still be pending
+
 	KAdd       = "add"     // Watcher.Add(P)
 	KRemove    = "remove"  // Watcher.Remove(P)
 	KList      = "list"    // Watcher.WatchList()
